@@ -163,6 +163,10 @@ def kmer(seed, runs, maxlen):
             j += 1
             if j % 17 == 0:
                 churn(rng, n)
+        # an exhausted iterator stays exhausted: further next() calls and a second loop yield nothing
+        for item in [next(it, None), next(it, None)] + list(it):
+            if item is not None:
+                emit({"ev": "kemit", "f": d32(item[0]), "r": d32(item[1]), "after_end": 1})
         emit({"ev": "kend"})
         # to_acgt on a few codes
         if i % 5 == 0:
@@ -196,6 +200,9 @@ def minimiser(seed, runs, maxlen):
             j += 1
             if j % 7 == 0:
                 churn(rng, n)
+        for item in [next(it, None), next(it, None)] + list(it):
+            if item is not None:
+                emit({"ev": "mrun", "open": 1, "v": d32(item[0]), "s": item[1], "e": item[2], "kmers": [], "after_end": 1})
         emit({"ev": "mend"})
         if i % 5 == 0:
             for x in (0, (1 << (2 * m)) - 1, rng.getrandbits(2 * m)):
